@@ -95,7 +95,17 @@ class C15:
             threads.append(ops)
         final = [["export_text", False, False], ["export_html", False, rng.random() < 0.5], ["export_text", False, True],
                  ["export_text", True, False], ["export_text", False, False]]
-        return {"cfg": cfg, "threads": threads, "final": final}
+        mt_mode = "prefix"
+        if nthreads > 1 and rng.random() < 0.4:
+            # drain mode: threads take *clearing* exports while others print; every piece of output
+            # must come out of exactly one of them (or of the final clearing export)
+            mt_mode = "drain"
+            for ops in threads:
+                for j, op in enumerate(ops):
+                    if op[0] == "export_text":
+                        ops[j] = ["export_text", True, False] if rng.random() < 0.5 else ["export_html", True, rng.random() < 0.5]
+            final = [["export_text", True, False]]
+        return {"cfg": cfg, "threads": threads, "final": final, "mt_mode": mt_mode}
 
     def _gen_text(self, rng, t, cnt):
         cnt[0] += 1
@@ -236,6 +246,7 @@ class Prog:
         self.single = self.n == 1
         self.captured_tokens = set()
         self.mid_exports = []
+        self.drained = []
         self.probes = {"captures_left_by_exception": 0, "exports_text": 0, "exports_html": 0, "exports_styled": 0, "captures": 0, "clearing_exports": 0,
                        "control_ops": 0, "links": 0, "html_special_chars": 0, "multi_thread_runs": int(self.n > 1)}
         for t in range(self.n):
@@ -318,6 +329,7 @@ class Prog:
             n0 = len(self.file.writes)
             me = self.sim.me().tid
             how = op[2] if len(op) > 2 else None
+            raised = None
             cap = con.capture()
             try:
                 with cap:
@@ -325,18 +337,41 @@ class Prog:
                         self._emit(con, x)
                     if how:
                         self.probes["captures_left_by_exception"] += 1
-                        self.raised = (InjectedInterrupt if how == "base" else InjectedFault)("C15")
-                        raise self.raised
+                        raised = (InjectedInterrupt if how == "base" else InjectedFault)("C15")
+                        raise raised
                 if how:
                     self._v("capture", "capture-swallowed-exception", "an exception raised inside capture() did not propagate")
             except FAULTS as e:
-                if e is not self.raised:
+                if e is not raised:
                     self._v("capture", "capture-swallowed-exception", "a different exception came out of capture()")
             got = cap.get()
             if seams.scrub_links(got) != seams.scrub_links(exp):
                 self._v("capture", "capture-wrong", "capture returned %r, expected %r" % (got[:200], exp[:200]))
             if any(w[1] == me for w in self.file.writes[n0:]):
                 self._v("capture", "capture-leaked-to-file", "the capturing thread wrote to the file from inside capture()")
+        elif k in ("export_text", "export_html") and not self.single and self.case.get("mt_mode") == "drain":
+            self.probes["draining_exports"] = self.probes.get("draining_exports", 0) + 1
+            if k == "export_text":
+                text = con.export_text(clear=True, styles=False)
+            else:
+                doc = con.export_html(clear=True, inline_styles=op[2])
+                m = re.search(r"<pre[^>]*>(.*)</pre>", doc, re.S)
+                text = html_text(m.group(1)) if m else ""
+            self.drained.append(TOKEN.findall(text))
+            if final:
+                order = [x for x in TOKEN.findall(term.visible_text("".join(w[2] for w in self.file.writes)))]
+                got = [x for toks in self.drained for x in toks if x not in self.captured_tokens]
+                if sorted(got) != sorted(order):
+                    lost = [x for x in order if x not in got]
+                    dup = sorted(set(x for x in got if got.count(x) > 1))
+                    self._v("export-clear", "drain-lost-or-duplicated", "clearing exports taken while other threads print do not add up to the file: lost %r, duplicated %r" % (lost[:10], dup[:10]))
+                else:
+                    pos = {x: i for i, x in enumerate(order)}
+                    for toks in self.drained:
+                        idx = [pos[x] for x in toks if x in pos]
+                        if idx != sorted(idx):
+                            self._v("export-clear", "drain-order", "a clearing export lists output in another order than the file: %r" % toks[:12])
+                            break
         elif k == "export_text":
             clear, styles = op[1], op[2]
             if not self.single and not final:
